@@ -32,6 +32,7 @@ META = {
                     "time.perf_counter / logger stubbed"],
 }
 META["explanation"] += '  runtext/*: the same multi-chromosome run through the real read_graph from GFA text, with the line order (link lines first, each link before the segment line of its second end, alternating) and a rotation of the S lines chosen by the solver; the chromosomes include one that is a single segment and one that is a single bubble.'
+META["explanation"] += '  chain-numeric-ids/*: plain numeric segment ids; chain-ids-from-source/*: segment ids taken from the string constants of order_gfa.py and gfa.py as they are at run time.'
 
 
 def templates(tier):
